@@ -435,6 +435,7 @@ def run(tier):
         q.pop()
     ck.sub("VC2 which rules can match a newline", "E-RX", "holds", rules_with_newline=sorted(k for k, v in may_nl.items() if v), bound=f"n={n}")
     ck.add_queries("z3", q.n, q.secs)
+    q.report(ck, "lexer VC")
 
     # rule functions under CrossHair: same token, same text, lineno += number of newlines
     from .c16 import classify_rules
@@ -561,6 +562,7 @@ def run(tier):
             if found:
                 viol.append((cls, found, "B"))
     ck.add_queries("z3", q.n, q.secs)
+    q.report(ck, "lexer VC")
     ck.states += q.n
     for cls, (L, w), variant in viol:
         lit, rest = w[:L], w[L:L + 1]
@@ -642,6 +644,7 @@ def run(tier):
             raise HarnessError(f"maximal munch model does not reproduce for {txt!r}: {out}")
         ck.violation(f"punctuator {txt!r} ({nm}) is split by the lexer in context {w!r}", path, key=dict(kind="munch", rule=nm))
     ck.add_queries("z3", q.n, q.secs)
+    q.report(ck, "lexer VC")
     ck.states += q.n
     ck.sub("VC4b multi-character punctuators are never split (maximal munch)", "E-RX", "holds" if not mm_bad else "flagged", queries=q.n)
     ck.sample(dict(may_contain_newline=sorted(k for k, v in may_nl.items() if v)))
